@@ -166,10 +166,13 @@ def observe(term, rng):
       v = value_of(t, mname)
       kept = {k: x.value for k, x in t.parameters.items()} == p and all(type(t.parameters[k].value) is type(p[k]) for k in p)
       row = {'status': 'INFEASIBLE' if t.infeasible else t.status.name, 'metrics_ok': bool(t.infeasible or (t.final_measurement is not None and set(t.final_measurement.metrics) >= set(mnames))),
-             'params_kept': bool(kept), 'val': fkey.key(v if v is not None else 0.0), 'inner': fkey.key(0.0), 'lo': fkey.key(0.0), 'hi': fkey.key(0.0), 'inner_infeasible': False}
+             'params_kept': bool(kept), 'val': fkey.key(v if v is not None else 0.0), 'inner': fkey.key(0.0), 'lo': fkey.key(0.0), 'hi': fkey.key(0.0), 'inner_infeasible': False, 'inner_marked_infeasible': False}
       if inner_trials is not None:
         iv = value_of(inner_trials[i], iname)
-        if iv is None:
+        row['inner_marked_infeasible'] = bool(inner_trials[i].infeasible)
+        if iv is None or iv != iv:
+          # no value to predict from: the inner evaluation is infeasible, or (two wrappers up from an infeasibility
+          # wrapper) it is the NaN an infeasible evaluation leaves behind in a wrapper that copies measurements only
           row['inner_infeasible'] = True
         else:
           row['inner'] = fkey.key(iv)
@@ -184,7 +187,9 @@ def observe(term, rng):
         t1 = evaluate(fresh, [p])[0]
         single.append([value_of(t1, m) for m in mnames] + [t1.infeasible])
       batch = [[value_of(t, m) for m in mnames] + [t.infeasible] for t in trials]
-      rec['batch_equals_single'] = bool(batch == single)
+      def same(a, b):     # NaN is the value an infeasible evaluation carries: equal to itself here
+        return a == b or (isinstance(a, float) and isinstance(b, float) and a != a and b != b)
+      rec['batch_equals_single'] = bool(len(batch) == len(single) and all(len(x) == len(y) and all(same(u, w) for u, w in zip(x, y)) for x, y in zip(batch, single)))
     # wrapper-specific extras
     if 'Noisy' in term['ws'][:-1]:
       pass
@@ -193,7 +198,10 @@ def observe(term, rng):
       twice = wrap(exptr, 'SignFlip', seed)
       back = [value_of(t, twice.problem_statement().metric_information.item().name) for t in evaluate(twice, pts)]
       orig = [value_of(t, iname) for t in evaluate(build(seed), pts)]
-      rec['extra_ok'] = bool(g_in != g_out and twice.problem_statement().metric_information.item().goal == g_in and back == orig)
+      def same_v(a, b):
+        return a == b or (isinstance(a, float) and isinstance(b, float) and a != a and b != b)
+      rec['extra_ok'] = bool(g_in != g_out and twice.problem_statement().metric_information.item().goal == g_in
+                             and len(back) == len(orig) and all(same_v(a, b) for a, b in zip(back, orig)))
     elif outer_name == 'Noisy':
       # the second run happens with every global random stream in another state, and many evaluations (rare noise events)
       np.random.seed(rng.randrange(2 ** 31))
@@ -213,8 +221,10 @@ def observe(term, rng):
       # evaluating every feasible assignment through the wrapper yields a permutation of the inner values (a bijection of the feasible values)
       import itertools
       grid = [dict(zip([p.name for p in ps.search_space.parameters], vals)) for vals in itertools.product(*[list(p.feasible_values) for p in ps.search_space.parameters])]
-      a = sorted(value_of(t, mname) for t in evaluate(exptr, grid))
-      b = sorted(value_of(t, iname) for t in evaluate(build(seed), grid))
+      def k(v):           # infeasible evaluations carry no value (None) or NaN: they are compared as such
+        return (2, 0.0) if v is None else (1, 0.0) if v != v else (0, v)
+      a = sorted(k(value_of(t, mname)) for t in evaluate(exptr, grid))
+      b = sorted(k(value_of(t, iname)) for t in evaluate(build(seed), grid))
       rec['extra_ok'] = bool(a == b)
   except Exception as e:  # pylint: disable=broad-except
     rec['refused'] = True
